@@ -57,7 +57,7 @@ theorem map_range_getD {β γ : Type} (l : List β) (d : β) (f : β → γ) :
 theorem rowsAt_setdiff (A : List (List Nat)) (U : List Row) (hA : A.Nodup) :
     rowsAt A (setdiffRows (toRows A) U) = A.filter (fun r => !U.contains (toRow r)) := by
   unfold rowsAt
-  rw [setdiff_spec, firstOccIdx_of_nodup _ (toRows_nodup hA)]
+  rw [setdiff_spec, firstOccIdx_of_nodup_se _ (toRows_nodup hA)]
   have hl : (toRows A).length = A.length := by simp [toRows]
   rw [hl]
   have : (List.range A.length).filter (fun k => !U.contains ((toRows A).getD k []))
@@ -94,7 +94,7 @@ theorem scatterMask_map (n : Nat) (idx : List Nat) (g : Nat → Bool) :
 theorem mem_intersect_nodup (A B : List (List Nat)) (hA : A.Nodup) (k : Nat) :
     k ∈ intersectRows (toRows A) (toRows B) ↔ k < A.length ∧ B.contains (A.getD k []) = true := by
   have hf : firstOccIdx (toRows A) = List.range A.length := by
-    rw [firstOccIdx_of_nodup _ (toRows_nodup hA)]; simp [toRows]
+    rw [firstOccIdx_of_nodup_se _ (toRows_nodup hA)]; simp [toRows]
   constructor
   · intro h
     have hk := intersect_mem _ _ k h
